@@ -72,5 +72,8 @@ impl TraceOut {
 }
 
 pub fn silence_panics() {
+    if std::env::var("XV_PANIC").is_ok() {
+        return;
+    }
     std::panic::set_hook(Box::new(|_| {}));
 }
